@@ -703,6 +703,70 @@ func c12ErrSurfacesPastJoins(call ssa.CallInstruction, tolerated []string) bool 
 	return true
 }
 
+// c12R2ParseArmed (mutation sweep, utils.go|bin-op|2): the recorded checksum
+// is turned into a verifier when it is PRESENT.  A test of the checksum against
+// "" (or of its length against 0) may skip the parse for an empty checksum, but
+// the parse must not lie entirely behind "checksum is empty" edges — then a
+// recorded digest is never verified and the empty one merely fails to parse.
+func c12R2ParseArmed(c *Ctx, R2 string, fns []*ssa.Function) {
+	for _, F := range fns {
+		for _, p := range CallsTo(F, "digest.Parse") {
+			arg := p.Common().Args[0]
+			fromParam := false
+			for _, r := range Roots(arg) {
+				if _, isP := r.(*ssa.Parameter); isP {
+					fromParam = true
+				}
+			}
+			if !fromParam {
+				continue
+			}
+			isArg := func(v ssa.Value) bool { return v == arg || c11SameRoots(v, arg) }
+			isLenOfArg := func(v ssa.Value) bool {
+				call, ok := v.(*ssa.Call)
+				if !ok {
+					return false
+				}
+				b, isB := call.Call.Value.(*ssa.Builtin)
+				return isB && b.Name() == "len" && len(call.Call.Args) == 1 && isArg(call.Call.Args[0])
+			}
+			var empty []Edge
+			for _, i := range Ifs(F) {
+				cond, t, f := ifEdges(i)
+				b, ok := cond.(*ssa.BinOp)
+				if !ok {
+					continue
+				}
+				for _, pair := range [][2]ssa.Value{{b.X, b.Y}, {b.Y, b.X}} {
+					k, isK := pair[1].(*ssa.Const)
+					if !isK || k.Value == nil {
+						continue
+					}
+					strEmpty := k.Value.Kind() == constant.String && constant.StringVal(k.Value) == "" && isArg(pair[0])
+					lenZero := k.Value.Kind() == constant.Int && constant.Sign(k.Value) == 0 && isLenOfArg(pair[0])
+					if !strEmpty && !lenZero {
+						continue
+					}
+					flipped := pair[0] == b.Y // const on the left
+					switch {
+					case b.Op == token.EQL:
+						empty = append(empty, t)
+					case b.Op == token.NEQ:
+						empty = append(empty, f)
+					case lenZero && ((b.Op == token.GTR && !flipped) || (b.Op == token.LSS && flipped)): // len(x) > 0, 0 < len(x)
+						empty = append(empty, f)
+					case lenZero && ((b.Op == token.LEQ && !flipped) || (b.Op == token.GEQ && flipped)): // len(x) <= 0, 0 >= len(x)
+						empty = append(empty, t)
+					}
+				}
+			}
+			ok := len(empty) == 0 || !MustPass(p.(ssa.Instruction), newCut().Edges(empty...))
+			c.Check(R2, FnName(F)+"|verifier-armed-when-checksum-present", p.Pos(), ok, ifelse(ok, "the checksum is parsed into a verifier on a path where it is not empty",
+				"digest.Parse of the recorded checksum is reachable only where the checksum is EMPTY: a recorded uncompressed digest is never verified on unpack"))
+		}
+	}
+}
+
 // ---------- R11: Fetch serves the file the digest was computed from ----------
 
 // c12R11: on the way out of the first store ("copied through any other store")
@@ -2137,6 +2201,7 @@ func c12ParamIndexReaching(fn *ssa.Function, callee string, argIdx int) int {
 func c12R2(c *Ctx, fns []*ssa.Function) {
 	const R2 = "C12.R2.unpack-verifies"
 	c.Expect(R2, 5)
+	c12R2ParseArmed(c, R2, fns)
 	es := c12FnsCalling(fns, "compress/gzip.NewReader")
 	if len(es) == 0 {
 		c.LostAnchor(R2, "gzip extractor: function of ~/content/file calling gzip.NewReader")
@@ -3851,6 +3916,10 @@ var c12Mutants = []Mutant{
 	{Name: "unpack-marker-compared-with-other-value", File: "content/file/file.go",
 		Old: "needUnpack == \"true\" && !s.SkipUnpack", New: "needUnpack == \"True\" && !s.SkipUnpack",
 		Expect: "C12.R9.pack-unpack-name-agreement|push|unpack-marker-value-agrees"},
+	// R2 (mutation sweep survivor content/file/utils.go|bin-op|2; keeps the whole test suite green)
+	{Name: "verifier-only-for-empty-checksum", File: "content/file/utils.go",
+		Old: "\tif checksum != \"\" {", New: "\tif checksum == \"\" {",
+		Expect: "C12.R2.unpack-verifies|~/content/file.extractTarGzip|verifier-armed-when-checksum-present"},
 	// R11
 	{Name: "fetch-looks-up-by-name", File: "content/file/file.go",
 		Old:    "\tval, exists := s.digestToPath.Load(target.Digest)\n\tif exists {\n\t\tpath := val.(string)\n\n\t\tfp, err := os.Open(path)",
